@@ -1,7 +1,57 @@
-(* C05 placeholder during construction *)
-From PD Require Import Base.Field Base.Matrix.
-Theorem C05_mmul_add_r :
-  forall (F : Type) (H : FieldOps F) (FL : FieldLaws F) n k m (A B C : @mat F),
-    mmul n k m A (madd k m B C) = madd n m (mmul n k m A B) (mmul n k m A C).
-Proof. intros. apply mmul_add_r. Qed.
-Print Assumptions C05_mmul_add_r.
+(* C05 -- checkpoint values interpolate exactly.  (The independence of the
+   checkpoint set is established by correspondence / metamorphic runs; the
+   theorems identify what an interpolation computes.) *)
+From Coq Require Import List Arith.
+From PD Require Import Base.Field Base.Matrix Base.Solve Model.Gauss Model.Prior Spec.RTS
+  Proofs.GaussProofs Proofs.FilterProofs Proofs.PriorProofs.
+Import ListNotations.
+
+Section C05.
+  Context {F : Type} `{FL : FieldLaws F}.
+
+  (* filter: a checkpoint value is the Kalman prediction from the preceding
+     state through the closed-form transition over t - t0 *)
+  Theorem C05_filter_interpolation_is_prediction :
+    forall q c (dt s2 : F) (rv : @normal F), dt <> f0 ->
+      c_marg (S q) (S q) c (iwp_transition_1d q c dt s2) rv
+      = kf_predict (S q) c (iwp_A_closed q dt)
+          (c_b (c_plain (S q) (S q) c (iwp_transition_1d q c dt s2)))
+          (iwp_Q_closed q dt s2) rv.
+  Proof.
+    intros q c dt s2 rv Hdt. rewrite c_marg_is_kalman_prediction. cbv zeta.
+    rewrite (iwp_plain_A_closed_form q c dt s2 Hdt).
+    rewrite (iwp_plain_Q_closed_form q c dt s2). reflexivity.
+  Qed.
+
+  (* smoothers: the backward model attached to the interpolated state, pushed
+     through any later marginal, is the RTS update (arbitrary scalings) *)
+  Theorem C05_smoother_interpolation_is_rts_conditioning :
+    forall n c (K : @cond F) (filt obs : @normal F) bw,
+      (forall i, i < n -> vget (c_tl K) i <> f0) ->
+      (forall i, i < n -> vget (c_to K) i <> f0) ->
+      c_revert minv n n c K filt = Some (obs, bw) ->
+      forall sm,
+        c_marg n n c bw sm = rts_with_gain n c (c_A (c_plain n n c bw)) filt obs sm.
+  Proof. exact backward_kernel_is_rts. Qed.
+
+  (* fixed-point smoother: after interpolating at t the new step_from carries
+     the backward model t1 -> t and the interpolated state the model t -> t_prev;
+     their merge acts as the composition (so later checkpoints see the same law) *)
+  Theorem C05_rewired_backward_models_compose :
+    forall n c (bw_t bw_t1 : @cond F) (rv : @normal F),
+      c_marg n n c (c_merge n n n c bw_t bw_t1) rv
+      = c_marg n n c bw_t (c_marg n n c bw_t1 rv).
+  Proof. intros. apply c_merge_is_composition. Qed.
+
+  (* interpolate_fwd_at_t1: the identity backward model reproduces the marginal *)
+  Theorem C05_at_checkpoint_identity_model :
+    forall n c (rv : @normal F),
+      c_marg n n c (identity_conditional n c) rv
+      = mkN (canon n c (n_mean rv)) (canon n n (n_cov rv)).
+  Proof. exact c_marg_identity. Qed.
+End C05.
+
+Print Assumptions C05_filter_interpolation_is_prediction.
+Print Assumptions C05_smoother_interpolation_is_rts_conditioning.
+Print Assumptions C05_rewired_backward_models_compose.
+Print Assumptions C05_at_checkpoint_identity_model.
